@@ -9,6 +9,7 @@
    the slack of the wall-clock monitor, not part of the model. *)
 From Coq Require Import List NArith ZArith.
 From TarsV Require Import Base.Hex Gen.C09Consts Conc.CallLife Conc.CallLifeProofs Conc.TraceSound Conc.TimeWheel Conc.TimeWheelProofs.
+From TarsV Require Xlate.TimeWheelEquiv.
 Import ListNotations.
 Open Scope N_scope.
 
